@@ -31,6 +31,29 @@ Proof.
 Qed.
 Print Assumptions c18_accepted_usable.
 
+(* ... and for every other modelled protocol entry point: Quake 1-3, Unreal 2 (every gather setting), GameSpy 1 / 2 / 3,
+   JC2-MP, Savage 2, Mindustry and the five Minecraft queries (the JSON reader being any total function) *)
+From GD Require Import Model.Quake Model.Unreal2 Model.Gamespy Model.Games Model.Minecraft Proofs.SettingsUsable.
+Theorem c18_accepted_usable_everywhere : forall path t, construct path = Ok t ->
+  forall port u tc sf,
+    (forall v, safe (fst (client_query port v t (net_init u tc sf))))
+    /\ (forall g, safe (fst (u2_query port g t (net_init u tc sf))))
+    /\ safe (fst (gs1_query port t (net_init u tc sf)))
+    /\ safe (fst (gs2_query port t (net_init u tc sf)))
+    /\ safe (fst (gs3_query port t (net_init u tc sf)))
+    /\ safe (fst (gs3_query_vars port t (net_init u tc sf)))
+    /\ safe (fst (jc2m_query port t (net_init u tc sf)))
+    /\ safe (fst (savage2_query port t (net_init u tc sf)))
+    /\ safe (fst (mindustry_query port t (net_init u tc sf)))
+    /\ (forall json rs, (forall x, json x <> None) ->
+          safe (fst (query_auto json port t rs (net_init u tc sf))) /\
+          safe (fst (query_java json port t rs (net_init u tc sf))) /\
+          safe (fst (query_bedrock port t (net_init u tc sf))) /\
+          safe (fst (query_legacy port t (net_init u tc sf))) /\
+          (forall g, safe (fst (query_legacy_specific g port t (net_init u tc sf))))).
+Proof. exact accepted_usable_everywhere. Qed.
+Print Assumptions c18_accepted_usable_everywhere.
+
 Example c18_ex : construct (PNew (Some (0, 1)) None (Some (18446744073709551615, 0)) 18446744073709551615)
                  = Ok (Some (mkts (Some (18446744073709551615, 0)) (Some (0, 1)) None 18446744073709551615))
   /\ construct (PClap None (Some (str "0")) None None) = Err InvalidInput
